@@ -351,6 +351,15 @@ func (c *Ctx) ruleForward(rule string) {
 					c.R.Bad(rule, k, c.M.InstrPos(hit.call), tname+"."+method+" visits only one element of "+ch.name, "the call on the collection's elements is not inside a loop")
 					continue
 				}
+				// every element of a collection is visited: no way round the call inside the loop (`if element.flag {
+				// continue }` leaves the references below that element unlinked / unchecked)
+				if ch.coll && !hit.looped {
+					if skipped := c.loopSkipsCall(fn, hit.call); skipped != "" {
+						c.R.Bad(rule, k, c.M.InstrPos(hit.call), tname+"."+method+" can pass an element of "+ch.name+" by",
+							"a path through the loop body ("+skipped+") reaches the next element without the call on this one: references below it stay unlinked / unchecked, and the operations that look at the type first (Validate, Serialize, compatibility, the shorthand probe) panic on them")
+						continue
+					}
+				}
 				// a single child is visited on every path on which the method can report success (a collection may be
 				// empty: its loop need not run)
 				if !ch.coll {
@@ -390,6 +399,74 @@ func (c *Ctx) ruleForward(rule string) {
 	c.scopeAndRef(rule)
 	c.loadersLink(rule)
 	c.R.Floor(rule, 20)
+}
+
+// loopSkipsCall: the call sits in a loop over a map or a slice; some path from the extraction of the element back to
+// the loop's header does not pass the call (and does not leave the function). Returns the position of the branch that
+// goes round it, "" if there is none.
+func (c *Ctx) loopSkipsCall(fn *ssa.Function, call *ssa.Call) string {
+	// the header: the innermost block that dominates the call's block and is reachable from it
+	var header *ssa.BasicBlock
+	for _, cand := range fn.Blocks {
+		if cand != call.Block() && cand.Dominates(call.Block()) && blockReaches(call.Block(), cand, nil) {
+			backEdge := false
+			for _, p := range cand.Preds {
+				if cand.Dominates(p) {
+					backEdge = true
+				}
+			}
+			if backEdge && (header == nil || header.Dominates(cand)) {
+				header = cand
+			}
+		}
+	}
+	if header == nil {
+		return ""
+	}
+	// the body entry: the successor of the header from which the call is reachable without passing the header again
+	var entry *ssa.BasicBlock
+	for _, s := range header.Succs {
+		if s == call.Block() || blockReaches(s, call.Block(), func(b *ssa.BasicBlock) bool { return b == header }) {
+			entry = s
+		}
+	}
+	if entry == nil {
+		return ""
+	}
+	skipped := ""
+	seen := map[*ssa.BasicBlock]bool{}
+	var walk func(b *ssa.BasicBlock)
+	walk = func(b *ssa.BasicBlock) {
+		if seen[b] || skipped != "" {
+			return
+		}
+		seen[b] = true
+		for _, in := range b.Instrs {
+			if in == ssa.Instruction(call) {
+				return
+			}
+			switch in.(type) {
+			case *ssa.Return, *ssa.Panic:
+				return
+			}
+		}
+		for _, s := range b.Succs {
+			if s == header {
+				skipped = c.M.InstrPos(b.Instrs[len(b.Instrs)-1])
+				if p := b.Instrs[len(b.Instrs)-1].Pos(); !p.IsValid() {
+					for _, in := range b.Instrs {
+						if in.Pos().IsValid() {
+							skipped = c.M.InstrPos(in)
+						}
+					}
+				}
+				return
+			}
+			walk(s)
+		}
+	}
+	walk(entry)
+	return skipped
 }
 
 // rangesOver: v is an element (the value of a range, an indexed element) of the collection held by prm.
